@@ -1,5 +1,6 @@
 import MitmVerif.Model.C03
 import MitmVerif.Model.C03_Enc
+import MitmVerif.Model.C03_Inv
 import Driver.Proto
 import Std.Data.HashMap
 import Std.Data.HashSet
@@ -190,23 +191,6 @@ def auxAll : List (Core → Core) :=
   bools.flatMap fun rs => bools.flatMap fun ps => bools.flatMap fun ws => bools.map fun c2 =>
     fun c => { c with err := e, hasResp := hr, respKind := rk, reqStream := rs, respStream := ps, reqWs := ws, connect2xx := c2 }
 
-/-- `mv_c03 checkinv`: is the set of reachable skeletons inductive when the auxiliary attributes are arbitrary? -/
-def checkInvMain : IO Unit := do
-  let c0 : Core := {}
-  let r := bfs ((Std.HashMap.emptyWithCapacity 4096).insert c0 none) [c0]
-  let sk : Std.HashSet Core := r.toList.foldl (fun acc (c, _) => acc.insert (skel c)) {}
-  IO.println s!"skeletons: {sk.size}"
-  let mut bad := 0
-  for s in sk.toList do
-    for f in auxAll do
-      let c := f s
-      for (ev, p, d) in succs c do
-        if !sk.contains (skel d) then
-          bad := bad + 1
-          if bad ≤ 5 then
-            IO.println s!"not inductive: {reprStr c}\n  --{reprStr ev} peek={p}-->\n  {reprStr (skel d)}"
-  IO.println s!"violations of inductiveness: {bad}"
-
 partial def bfsH (seen : Std.HashSet Core) (frontier : List Core) : Std.HashSet Core :=
   match frontier with
   | [] => seen
@@ -218,12 +202,68 @@ partial def bfsH (seen : Std.HashSet Core) (frontier : List Core) : Std.HashSet 
           if acc.1.contains d then acc else (acc.1.insert d, d :: acc.2)) acc) acc) (seen, [])
     bfsH seen next
 
+def compact (c : Core) : String :=
+  let f (b : Bool) (ch : String) := if b then ch else "."
+  s!"{csName c.cs}/{ssName c.ss} k={reprStr c.paused} " ++ f c.m.fRH "H" ++ f c.m.fReq "Q" ++ f c.m.fRespH "h" ++ f c.m.fResp "R"
+    ++ f c.m.fErr "E" ++ f c.m.streamed "S" ++ " " ++ f c.attached "A" ++ f c.dropped "D" ++ f c.procReqErr "X" ++ f c.hasFlow "F"
+    ++ f c.live "L" ++ f c.websocket "W" ++ f c.isConnect "C" ++ f c.pt "P" ++ f c.seenReqHdr "s" ++ f c.draining "d" ++ f c.stale "t"
+    ++ f c.bad "B" ++ " v=" ++ f c.m.v1 "1" ++ f c.m.v2 "2" ++ f c.m.v3 "3" ++ f c.m.v4 "4" ++ f c.m.v5 "5"
+    ++ s!" aux: err={reprStr c.err} hasResp={c.hasResp} rk={reprStr c.respKind} rs={c.reqStream} ps={c.respStream} ws={c.reqWs} c2={c.connect2xx}"
+
+def boolMuts : List (Core → Core) :=
+  [fun c => { c with pt := !c.pt }, fun c => { c with hasFlow := !c.hasFlow }, fun c => { c with live := !c.live },
+   fun c => { c with websocket := !c.websocket }, fun c => { c with isConnect := !c.isConnect },
+   fun c => { c with attached := !c.attached }, fun c => { c with dropped := !c.dropped },
+   fun c => { c with procReqErr := !c.procReqErr }, fun c => { c with seenReqHdr := !c.seenReqHdr },
+   fun c => { c with draining := !c.draining }, fun c => { c with stale := !c.stale },
+   fun c => { c with m := { c.m with fRH := !c.m.fRH } }, fun c => { c with m := { c.m with fReq := !c.m.fReq } },
+   fun c => { c with m := { c.m with fRespH := !c.m.fRespH } }, fun c => { c with m := { c.m with fResp := !c.m.fResp } },
+   fun c => { c with m := { c.m with fErr := !c.m.fErr } }, fun c => { c with m := { c.m with streamed := !c.m.streamed } }]
+
+def enumMuts : List (Core → Core) :=
+  ([CS.uninit, .waitHdr, .consume, .stream, .done, .errored].map fun x => fun c : Core => { c with cs := x })
+  ++ ([SS.uninit, .waitHdr, .consume, .stream, .done, .errored].map fun x => fun c : Core => { c with ss := x })
+  ++ ((List.range 31).map fun n => fun c : Core => { c with paused := pausedOfNat n })
+
+def allMuts : List (Core → Core) := boolMuts ++ enumMuts
+
+/-- `mv_c03 checkinv`: test that `InvB` is inductive on states near the reachable ones (every single and double
+    mutation of a reachable skeleton that still satisfies `InvB`), with arbitrary auxiliary attributes -/
+def checkInvMain : IO Unit := do
+  let c0 : Core := {}
+  let r := bfsH ((Std.HashSet.emptyWithCapacity 4096).insert (skel c0)) [skel c0]
+  let mut cands : Std.HashSet Core := r
+  for s in r.toList do
+    for f in allMuts do
+      let s1 := f s
+      if InvB s1 then cands := cands.insert s1
+      for g in boolMuts do
+        let s2 := g s1
+        if InvB s2 then cands := cands.insert s2
+  IO.println s!"states satisfying InvB to test: {cands.size}"
+  let mut bad := 0
+  let mut i := 0
+  for s in cands.toList do
+    i := i + 1
+    if bad > 3000 then break
+    for f in auxAll do
+      let c := f s
+      for (ev, p, d) in succs c do
+        if !InvB d then
+          bad := bad + 1
+          if bad ≤ 3000 && bad % 150 == 1 then
+            IO.println s!"CEX {compact c}  --{reprStr ev} peek={p}-->  {compact d}"
+  IO.println s!"violations of inductiveness: {bad}"
+
 /-- `mv_c03 havoc`: reachable skeletons when the auxiliary attributes are arbitrary at every step -/
 def havocMain : IO Unit := do
   let c0 : Core := {}
   let r := bfsH ((Std.HashSet.emptyWithCapacity 4096).insert (skel c0)) [skel c0]
   IO.println s!"havoc-reachable skeletons: {r.size}"
   let all := r.toList
+  let viol := all.filter fun c => !InvB c
+  IO.println s!"InvB fails on {viol.length} havoc-reachable skeletons"
+  for c in viol.take 3 do IO.println (reprStr c)
   let cnt (p : Core → Bool) : Nat := (all.filter p).length
   IO.println s!"v1 {cnt fun c => !c.bad && c.m.v1} v2 {cnt fun c => !c.bad && c.m.v2} v3 {cnt fun c => !c.bad && c.m.v3} v4 {cnt fun c => !c.bad && c.m.v4} v5 {cnt fun c => !c.bad && c.m.v5} closure {cnt closureBad}"
   match all.filter closureBad with
